@@ -48,6 +48,13 @@ ALL_MIX = ['MIT', 'CTD', 'UCTD']
 
 _CPU_BUDGET_S = 200.0
 
+# reader functions in which a traceback on damaged input text has been
+# repaired: a traceback there is a regression, never the known long tail
+_REPAIRED_READER_SITES = {
+    '_split_positions', '_configobj_load', 'check_inputfile_sections',
+    'strip_assignment_section', 'check_spacergrid',
+    'check_unrodded_regions', '__init__', 'load_input'}
+
 SEMANTIC = ['pins_dont_fit', 'wire_too_thick', 'clad_too_thick',
             'nonpositive_dimension', 'duct_ge_pitch', 'unequal_outer_ducts',
             'axial_region_inverted', 'axial_region_overlap',
@@ -525,9 +532,11 @@ class C18(Prop):
                 if oc == 'crash':
                     cs = out['detail'].split(':')[0]
                     extra = set()
+                    fn = (out['detail'].split(':') + ['', ''])[1].strip()
                     if f and f['class'] == 'file' and \
                             f.get('file') == 'input.txt' and \
-                            cs.endswith('@read_input.py'):
+                            cs.endswith('@read_input.py') and \
+                            fn not in _REPAIRED_READER_SITES:
                         # damaged *input text* and the exception is raised
                         # inside the reader module: the long tail recorded
                         # as F-C18-6
